@@ -329,9 +329,20 @@ def valMat : Val → Nat
 /-- Derivations other than the two transplants build the result from the constructor arguments only: empty cache. -/
 def deriveFresh : Cache := []
 
-/-- `add_low_rank`: returns the parent's new state and the NEW object's initial cache (matrix id `m'`).  As in the
-code, the updated root is wrapped as triangular whenever the parent's root is — although `L U S̃` is not triangular. -/
+/-- `add_low_rank` (after fix 98f87b2): returns the parent's new state and the NEW object's initial cache (matrix id `m'`).
+The updated root `L U S̃` is dense and is stored as a plain (non-triangular) root. -/
 def addLowRank (m' : Nat) (s : St) : St × Cache :=
+  let r := rootDecomp P σ n m .kwNone s
+  let ri := rootInvDecomp P σ n m .kwNone r.1
+  let ok := paired r.2 ri.2 && valMat r.2 == m
+  let tgt := if ok then m' else 0
+  (ri.1, [(rootKey .noargs, Val.root .transplant false false tgt),
+          (rootInvKey .noargs, Val.rootInv .transplant tgt)])
+
+/-- The OLD formula of `add_low_rank` (before fix 98f87b2; NOT what the driver runs): the updated root was wrapped as
+triangular whenever the parent's root was — although `L U S̃` is not triangular.  Kept only to state what the fix removed
+and what a re-introduction would break. -/
+def addLowRankOldWrapping (m' : Nat) (s : St) : St × Cache :=
   let r := rootDecomp P σ n m .kwNone s
   let ri := rootInvDecomp P σ n m .kwNone r.1
   let ok := paired r.2 ri.2 && valMat r.2 == m
